@@ -12,6 +12,7 @@ functionalised loop and branch bodies, see vf/c14_frames.py.
 """
 import inspect
 import json
+import os
 
 from .. import common, tlc
 from .. import c14_values as cv
@@ -182,7 +183,7 @@ def run_builtins(rep, tier, workers):
 
 def run(rep):
     tier = rep.tier
-    workers = 8 if tier == 'quick' else 12
+    workers = int(os.environ.get('VERIF_WORKERS', '6'))   # TLC workers and conversion processes (shared machine)
     run_builtins(rep, tier, workers)
     cf.run_frames(rep, tier, workers)
     rep.assume('Call shapes Python rejects (TypeError from argument binding) are outside the property: the model is '
@@ -215,14 +216,24 @@ def replay(path):
         if rec is None:
             print('witness call is not a state of Builtins.tla any more')
             return 2
+        from malt.impl import api
+        from malt.core import converter, ag_ctx
         b = getattr(builtins, c['b'])
+        opts = converter.ConversionOptions(recursive=True)
+
+        def via_cc(*a, **k):
+            with ag_ctx.ControlStatusCtx(status=ag_ctx.Status.ENABLED):
+                return api.converted_call(b, a, (k if k else None), options=opts)
+
         exp = cv.expected_obs(rec)
         real = cv.observe(b, rec, strtab)
         got = cv.observe(py_builtins.overload_of(b), rec, strtab)
-        print('specification:', exp)
-        print('real builtin :', real)
-        print('overload     :', got)
+        got2 = cv.observe(via_cc, rec, strtab)
+        print('specification :', exp)
+        print('real builtin  :', real)
+        print('overload      :', got, '->', cv.diff(exp, got) or 'agrees')
+        print('converted_call:', got2, '->', cv.diff(exp, got2) or 'agrees')
         if cv.diff(exp, real):
             return 2
-        return 1 if cv.diff(exp, got) else 0
+        return 1 if (cv.diff(exp, got) or cv.diff(exp, got2)) else 0
     return cf.replay(wit)
